@@ -21,6 +21,7 @@ type refreshRun struct {
 	d         *gocql.VerifC17Refresh
 	fires     bool // short interval: every debounce is followed by waiting for the timer
 	calls     int32
+	callBase  int32
 	gate      chan struct{}
 	released  int
 	listeners []<-chan error
@@ -77,7 +78,7 @@ func (r *refreshRun) observe() []int64 {
 	if r.inGate() {
 		in = 1
 	}
-	return []int64{int64(atomic.LoadInt32(&r.calls)), int64(served), int64(cancelled), in, int64(blocked), int64(done)}
+	return []int64{int64(atomic.LoadInt32(&r.calls) - r.callBase), int64(served), int64(cancelled), in, int64(blocked), int64(done)}
 }
 
 func (r *refreshRun) step(op, coqOp string) {
@@ -209,6 +210,15 @@ func runRefreshTrace(rng *hlib.Rng, profile int) *refreshRun {
 		return nil
 	})
 	quiesce(2 * time.Second)
+	// newRefreshDebouncer creates its timer running and stops it right away; with the 1 ms interval used
+	// here it can expire in between, and the flusher then runs one refresh nobody asked for. Let it
+	// finish and start counting afterwards (the session's interval is 1 s: not a concern there).
+	for guard := 0; guard < 3 && r.inGate(); guard++ {
+		r.released++
+		r.gate <- struct{}{}
+		quiesce(2 * time.Second)
+	}
+	r.callBase = atomic.LoadInt32(&r.calls)
 	script := func(ops ...func()) {
 		for _, f := range ops {
 			f()
